@@ -70,9 +70,6 @@ def hygiene():
         tqdm.tqdm._instances.clear()
     except Exception:
         pass
-    stack = getattr(gprinter, "ANSI_CONTEXT_STACK", None)   # process-wide on the pinned tree; may not exist at all
-    if stack is not None:
-        stack.clear()
 
 
 def render(family, ret, ansi, tty, quiet):
@@ -449,9 +446,6 @@ def render_outcome(family, ret, ansi, tty, quiet):
         site = core.graphtage_site(e)
         if "outside-graphtage" in site and not isinstance(e, RecursionError):
             raise
-        stack = getattr(gprinter, "ANSI_CONTEXT_STACK", None)
-        if stack is not None:
-            stack.clear()
         return site
 
 
